@@ -194,6 +194,16 @@ def install(I):
         if isinstance(x, MapImage):
             return sl.sum_of_image(x)
         return old_sum(I, x, *a, **k)
+    CMQ = "genjax._src.core.generative.choice_map:ChoiceMap.from_mapping"
+
+    def from_mapping(I, pairs):
+        from pyvc.interp_call import ZippedSites
+        if isinstance(pairs, ZippedSites):
+            vals = I.ctx.fn("per_site_values", U, AU)(pairs.values.t)
+            externals._used("C17/C22 lemma: ChoiceMap.from_mapping(zip(addresses, maps)) has maps[i] under addresses[i]")
+            return UVal(sl.chm_of_chms(pairs.m.has, vals), "ChoiceMap")
+        return I.call_function(I.qual(CMQ), [pairs], {}, no_override=True)
+    I.overrides[CMQ] = from_mapping
     I.ext["jax.numpy.array"] = arr
     I.ext["jax.numpy.asarray"] = arr
     I.ext["jax.numpy.sum"] = sm
